@@ -475,11 +475,15 @@ def macro_half(rep):
                        and c.label.split('.')[0] in gens}
             visited = {t for op, t in log if op == 'visit' and t in gens}
             fwd_deps = {t for op, t in log if op == 'forward_visit_dependencies'}
+            fwd_gens = {t for op, t in log if op == 'forward_visit_generics'}
             # concretised parameters are replaced by their concrete type in the binding but the field still has the parameter's type
             conc = set(item['concrete'])
             why = None
             if not (by_name - conc) <= visited:
                 why = f'parameter(s) {sorted(by_name - conc - visited)} are referred to by name but not reported as dependencies'
+            elif not (by_name - conc) <= fwd_gens:
+                # the argument bound to the parameter may itself be generic (`T = Vec<Row>`): its name mentions its own arguments
+                why = f'parameter(s) {sorted(by_name - conc - fwd_gens)} are referred to by name but their generic arguments are not reported'
             elif not (visited - conc) <= by_name:
                 why = f'parameter(s) {sorted(visited - by_name)} are reported as dependencies but their name is not used'
             elif not inlined <= fwd_deps:
